@@ -112,6 +112,8 @@ func mkRowsColl(lg commit.Logger) *column.Collection {
 		v.N = v.N*3 + d.N
 		return v
 	})))
+	c.CreateColumn("g", column.ForInt64()) // g and h are always put together: h = (g is odd)
+	c.CreateColumn("h", column.ForBool())
 	c.CreateIndex("big", "a", func(r column.Reader) bool { return r.Int() >= 5 })
 	return c
 }
@@ -196,6 +198,9 @@ func genRowsCfg(rng *Rng) rowsCfg {
 	if rng.Chance(35) {
 		cfg.rows = append(cfg.rows, virginRow)
 	}
+	if rng.Chance(40) {
+		cfg.rows = append(cfg.rows, 16383, 16384) // neighbours on both sides of a block boundary
+	}
 	nw := 2 + rng.Intn(2)
 	for i := 0; i < nw; i++ {
 		w := wspec{d: int64(1 + rng.Intn(9)), set: rng.Chance(20), abort: rng.Chance(8)}
@@ -206,6 +211,25 @@ func genRowsCfg(rng *Rng) rowsCfg {
 			perm[j], perm[x] = perm[x], perm[j]
 		}
 		w.rows = perm[:k]
+		// neighbours across the block boundary are written one after the other, in ascending order
+		i83, i84 := -1, -1
+		for j, r := range w.rows {
+			if r == 16383 {
+				i83 = j
+			}
+			if r == 16384 {
+				i84 = j
+			}
+		}
+		if i83 >= 0 && i84 >= 0 {
+			rest := []uint32{}
+			for _, r := range w.rows {
+				if r != 16383 && r != 16384 {
+					rest = append(rest, r)
+				}
+			}
+			w.rows = append(rest, 16383, 16384)
+		}
 		cfg.writers = append(cfg.writers, w)
 	}
 	if rng.Chance(70) {
@@ -252,6 +276,8 @@ func runRows(cfg rowsCfg, ch func(int, []int) int, grace time.Duration) *scenOut
 		row  uint32
 		a, b int64
 		ok   bool
+		g    int64
+		h    bool
 	}
 	var seenMu sync.Mutex
 	var seens []seen
@@ -261,6 +287,8 @@ func runRows(cfg rowsCfg, ch func(int, []int) int, grace time.Duration) *scenOut
 			c.Query(func(txn *column.Txn) error {
 				for _, off := range w.rows {
 					txn.QueryAt(off, func(r column.Row) error {
+						r.SetInt64("g", w.d)
+						r.SetBool("h", w.d%2 == 1)
 						if w.set {
 							r.SetInt64("a", w.d)
 							r.SetInt64("b", initOf(off).b-w.d)
@@ -305,8 +333,10 @@ func runRows(cfg rowsCfg, ch func(int, []int) int, grace time.Duration) *scenOut
 				a, ok1 := r.Int64("a")
 				s.Yield("r.mid", off>>14)
 				b, ok2 := r.Int64("b")
+				g, _ := r.Int64("g")
+				h := r.Bool("h")
 				seenMu.Lock()
-				seens = append(seens, seen{off, a, b, ok1 && ok2})
+				seens = append(seens, seen{off, a, b, ok1 && ok2, g, h})
 				seenMu.Unlock()
 				return nil
 			})
@@ -316,13 +346,15 @@ func runRows(cfg rowsCfg, ch func(int, []int) int, grace time.Duration) *scenOut
 	if cfg.ranger {
 		s.Go(nthr-1, func() {
 			c.Query(func(txn *column.Txn) error {
-				ra, rb := txn.Int64("a"), txn.Int64("b")
+				ra, rb, rg, rh := txn.Int64("a"), txn.Int64("b"), txn.Int64("g"), txn.Bool("h")
 				return txn.With("a").Range(func(i uint32) {
 					a, ok1 := ra.Get()
 					s.Yield("r.mid", i>>14)
 					b, ok2 := rb.Get()
+					g, _ := rg.Get()
+					h := rh.Get()
 					seenMu.Lock()
-					seens = append(seens, seen{i, a, b, ok1 && ok2})
+					seens = append(seens, seen{i, a, b, ok1 && ok2, g, h})
 					seenMu.Unlock()
 				})
 			})
@@ -347,6 +379,13 @@ func runRows(cfg rowsCfg, ch func(int, []int) int, grace time.Duration) *scenOut
 	for _, sn := range seens {
 		if sn.ok && sn.a+sn.b != initOf(sn.row).b {
 			out.viol("C10", "reader saw a=%d b=%d on row %d inside one callback (invariant a+b=%d)", sn.a, sn.b, sn.row, initOf(sn.row).b)
+			out.viol("C02", "a reader saw part of a transaction's changes before the rest: a=%d b=%d on row %d inside one callback (every transaction keeps a+b=%d)", sn.a, sn.b, sn.row, initOf(sn.row).b)
+		}
+	}
+	for _, sn := range seens {
+		if sn.h != (sn.g%2 == 1) {
+			out.viol("C10", "reader saw g=%d h=%v on row %d inside one callback (every transaction puts h = (g is odd) together with g)", sn.g, sn.h, sn.row)
+			out.viol("C02", "a reader saw part of a transaction's changes before the rest: g=%d h=%v on row %d", sn.g, sn.h, sn.row)
 		}
 	}
 	// C09: every row equals the fold of the committed writers in the apply order of its block
@@ -546,6 +585,8 @@ func snapWriterTxn(c *column.Collection, w wspec) {
 			c.Query(func(txn *column.Txn) error {
 				for _, off := range w.rows {
 					txn.QueryAt(off, func(r column.Row) error {
+						r.SetInt64("g", w.d)
+						r.SetBool("h", w.d%2 == 1)
 						if w.set {
 							r.SetInt64("a", w.d)
 							r.SetInt64("b", initOf(off).b-w.d)
